@@ -32,6 +32,19 @@ def handleC16 : Handler := fun args =>
     match len.toInt? with
     | some len => if Gen.driver_computeNetSz_safe len then toString (Gen.driver_computeNetSz len) else "panic"
     | none => "bad-op"
+  | ["estimate", a, len] =>
+    match natArgs [a, len] with
+    | some [a, len] => if a < two32 ∧ len ≤ 32 then toString (hostsCount a len) else "bad-op"
+    | _ => "bad-op"
+  | ["estimate-check", a, len, sent, est] =>
+    -- monitor for "the probe-count estimate equals the number enumerated" on the real code's two numbers
+    match natArgs [a, len, sent] with
+    | some [a, len, sent] =>
+      if a < two32 ∧ len ≤ 32 then
+        if est == toString sent ∧ sent == hostsCount a len then "accept"
+        else s!"reject sent={sent} estimate={est} model={hostsCount a len}"
+      else "bad-op"
+    | _ => "bad-op"
   | ["cancel", a, len, cap, occ, recv, cancelled] =>
     -- does ipGenerator on a/len return, given the channel and the context? (model of the select-guarded sends)
     match natArgs [a, len, cap, occ, recv, cancelled] with
